@@ -22,7 +22,7 @@ def hertz_three_sided_pyramid(delta, E, alpha, nu, contact_point=0,
 
     .. math::
 
-        F = 0.887 \tan\alpha
+        F = 0.8887 \tan\alpha
             \cdot \frac{E}{1-\nu^2}
             \delta^2
 
